@@ -274,7 +274,7 @@ func (e *Enc) callMods(c *ssa.CallCommon, ms *modSet) {
 		ms.all = true
 		return
 	}
-	if ct.TracedArg != nil {
+	if e.tracedHere(ct, ct.Key) {
 		for _, n := range traceComps {
 			ms.heaps[n] = true
 		}
